@@ -1,3 +1,5 @@
+//go:build !passthrough
+
 package simrt
 
 // VC is a vector clock indexed by goroutine id (Go memory model happens-before).
